@@ -40,7 +40,14 @@ def specBin (op : BinOp) (a b : Value) : String :=
   | .xor => obsValue (Spec.triValue (Spec.xor3 (Spec.tri a) (Spec.tri b)))
   | .isNull => boolObs a.isNull
   | .isNotNull => boolObs (!a.isNull)
-  | .inList => if b.isNull then "null -" else "-"
+  | .inList => match b with
+    | .null => "null -"
+    -- `x IN list`: the Kleene OR of the element equalities
+    | .list items => obsValue (Spec.triValue (items.foldr (fun it acc => Spec.or3 (Spec.eq3 a it) acc) (some false)))
+    | _ => "-"
+  -- `=` / `<>` on ALL values: the Spec's `eq3` (lists and maps: Kleene AND of the element equalities)
+  | .eq => obsValue (Spec.triValue (Spec.eq3 a b))
+  | .ne => obsValue (Spec.triValue (Spec.not3 (Spec.eq3 a b)))
   | op =>
     if a.isNull || b.isNull then "null -" else
     match op, a, b with
